@@ -99,6 +99,12 @@ impl EntityReactionAccessTracker
         self.currently_reacting
     }
 
+    #[cfg(cobweb_verif)]
+    pub(crate) fn verif_state(&self) -> (bool, usize)
+    {
+        (self.currently_reacting, self.prepared.len())
+    }
+
     /// Returns the system running the entity reaction.
     fn system(&self) -> SystemCommand
     {
